@@ -404,6 +404,7 @@ class _FnInfo:
         s.fn = fn
         s.params = {a.arg for a in fn.args.posonlyargs + fn.args.args + fn.args.kwonlyargs}
         s.defs = {}      # name -> list of (value node, control-dep names, in_loop)
+        s.unpacked = set()   # names bound as one element of a tuple target (a, b, c = f(args)): sources in their own right
         s.loop_assigned = set()
         s._walk(fn.body, set(), False)
 
@@ -434,7 +435,9 @@ class _FnInfo:
             s.defs.setdefault(t.id, []).append((value, set(ctrl), in_loop))
             if in_loop: s.loop_assigned.add(t.id)
         elif isinstance(t, (ast.Tuple, ast.List)):
-            for e in t.elts: s._bind(e, value, ctrl, in_loop)
+            for e in t.elts:
+                if isinstance(e, ast.Name) and not (isinstance(value, (ast.Tuple, ast.List)) and len(value.elts) == len(t.elts)): s.unpacked.add(e.id)
+                s._bind(e, value, ctrl, in_loop)
 
     def slice_deps(s, expr, stop=()):
         """input names the expression depends on: parameters, free variables, 'self.x' paths."""
@@ -450,6 +453,10 @@ class _FnInfo:
             for nm in _names(e):
                 if nm in stop or nm in seen or nm == "self": continue
                 seen.add(nm)
+                if nm in s.unpacked and nm not in s.params:
+                    # one component of an unpacked call result (N, fs, ... = _require_args(args, [...])): the component itself is the
+                    # dependency - slicing through the common right-hand side would make every component depend on everything
+                    deps.add(nm); continue
                 if nm in s.defs and nm not in s.params:
                     for v, ctrl, _ in s.defs[nm]:
                         work.append(v)
@@ -465,11 +472,11 @@ class _FnInfo:
 MODULE_NAMES = {"np", "_np", "numpy", "math", "time", "_time", "logging", "cuda", "types", "signal", "sp", "pd", "ct"}
 
 
-def check_cache_keys(ctx, rule="R5-cache-key", about=None):
+def check_cache_keys(ctx, rule="R5-cache-key", about=None, files=None):
     """every memo dictionary is keyed by everything its cached value depends on (and that can vary during its lifetime)."""
     repo = ctx.repo
     found = 0; matched = 0
-    for rel in ("speckit/analysis.py", "speckit/core.py", "speckit/core_cuda.py", "speckit/schedulers.py", "speckit/utils.py"):
+    for rel in (files or ("speckit/analysis.py", "speckit/core.py", "speckit/core_cuda.py", "speckit/schedulers.py", "speckit/utils.py", "speckit/noise.py", "speckit/dsp.py")):
         if rel not in repo.mods: continue
         mod = repo.module(rel)
         module_dicts = set()
@@ -535,6 +542,7 @@ def check_cache_keys(ctx, rule="R5-cache-key", about=None):
                     varying = {d for d in deps if not d.startswith("self.") and not _is_module_const(repo, rel, d)}
                 elif scope == "module":
                     varying = {d for d in deps if not _is_module_const(repo, rel, d)}
+                    # key names reached through simple conversions of components (int(N), float(fs)) count for those components
                     # free variables of a nested builder come from the enclosing call: they vary across calls
                     if pinfo:
                         more = set()
@@ -560,8 +568,11 @@ def check_cache_keys(ctx, rule="R5-cache-key", about=None):
                                  f"a later lookup with a different {', '.join(missing)} returns the stale entry", where)
                 else:
                     ctx.holds(rule, construct, f"{scope} cache; value depends on {sorted(deps)}, key covers the varying ones", where)
-    ctx.need("memoisation dictionaries", found, 2)
-    if about is not None: ctx.need(f"memoisation dictionaries about {'/'.join(about)}", matched, 1)
+    if files is None:
+        ctx.need("memoisation dictionaries", found, 2)
+        if about is not None: ctx.need(f"memoisation dictionaries about {'/'.join(about)}", matched, 1)
+    elif not matched:
+        ctx.holds(rule, "+".join(files), "no memoisation dictionary in these modules", "")
 
 
 def _own_nodes(fn):
